@@ -75,6 +75,7 @@ type CallObs struct {
 	Final        error    // terminal outcome of the call (nil: success and clean end)
 	FinalSet     bool
 	FinalText    string // Error() at the instant the outcome was returned
+	FinalMeta    string // error metadata at that instant
 	RespHeader   http.Header
 	RespTrailer  http.Header
 	RawHeader    http.Header // uncopied
@@ -293,6 +294,9 @@ func (w *World) client(p *CallPlan) *connect.Client[Msg, Msg] {
 	}
 	if cfg.ReadMax > 0 {
 		opts = append(opts, connect.WithReadMaxBytes(cfg.ReadMax))
+	}
+	if cfg.Hedge {
+		opts = append(opts, connect.WithInterceptors(hedgeInterceptor{}))
 	}
 	var hc connect.HTTPClient = w.Net
 	if w.real != nil {
@@ -709,6 +713,10 @@ func (w *World) setFinal(o *CallObs, err error) {
 		o.Final, o.FinalSet = err, true
 		if err != nil {
 			o.FinalText = err.Error()
+			var ce *connect.Error
+			if errors.As(err, &ce) {
+				o.FinalMeta = hdrString(ce.Meta())
+			}
 		}
 	}
 }
@@ -944,3 +952,23 @@ func (j *joinPred) Ready(time.Time) bool { return j.t.Finished() }
 func (j *joinPred) Param(*core.Tape) int { return 0 }
 
 func (j *joinPred) ReadyNow() bool { return j.t.Finished() }
+
+// hedgeInterceptor prepares a backup connection next to the primary one for
+// every streaming call (and never uses it), tagging each attempt.
+type hedgeInterceptor struct{}
+
+func (hedgeInterceptor) WrapUnary(next connect.UnaryFunc) connect.UnaryFunc { return next }
+
+func (hedgeInterceptor) WrapStreamingHandler(next connect.StreamingHandlerFunc) connect.StreamingHandlerFunc {
+	return next
+}
+
+func (hedgeInterceptor) WrapStreamingClient(next connect.StreamingClientFunc) connect.StreamingClientFunc {
+	return func(ctx context.Context, spec connect.Spec) connect.StreamingClientConn {
+		primary := next(ctx, spec)
+		backup := next(ctx, spec)
+		primary.RequestHeader().Set("X-Attempt", "primary")
+		backup.RequestHeader().Set("X-Attempt", "backup")
+		return primary
+	}
+}
